@@ -1,4 +1,343 @@
-import MudProof.RealInst
+/-
+  C02 — the electronic density matrix stays a valid quantum state.
+
+  Subject: MudModel/Electronic.lean (`hamProp`, `propagatorU`, `expStep`, `rk4One`, `rk4`, `rk4Ydot`)
+  at `ℝ`/`ℂ` through `MudProof.MatBridge`, for every number of states `N`, every `dt`.
+
+  exp path (exact):
+  * `W_hermitian`            symmetric H, antisymmetric couplings ⇒ the midpoint generator W is Hermitian
+  * `propagatorU_eq`         the code's U is  C · diag(e^{-iλdt}) · Cᴴ
+  * `propagatorU_unitary`    C unitary (eigh's contract), λ real ⇒ U unitary
+  * `expStep_eq`             ρ' = U ρ Uᴴ
+  * `conj_hermitian`, `conj_trace`, `conj_posSemidef`, `conj_idempotent`
+                             Hermiticity, unit trace, positivity (⇒ populations in [0,1]) and purity are preserved
+  * `populations_unit_interval`
+  * `exp_history_invariant`  by induction: after ANY list of steps (any generators, any dt per step) the state is
+                             Hermitian, trace one, positive semi-definite, and pure if it started pure
+  linear-rk4 path (structural facts, exact):
+  * `rk4_invariant`          an RK4 run preserves every linear functional that the right-hand side annihilates
+                             and every real-linear subspace the right-hand side preserves
+  * `commutator_traceless`, `commutator_hermitian`   the right-hand side -i[HI,ρ] is traceless, and Hermitian when HI, ρ are
+  * `rk4_trace`, `rk4_hermitian`   ⇒ trace and Hermiticity are preserved **exactly** for any sub-step count
+  Partial (DESIGN §7 C02): positivity/purity under RK4 hold only up to the truncation error.
+  Hops do not touch ρ (`Mud.hopToIt` has no ρ argument); collapse: see `collapse_pure` below.
+-/
+import MudProof.MatBridge
+import Mathlib.LinearAlgebra.UnitaryGroup
+import Mathlib.LinearAlgebra.Matrix.PosDef
+import Mathlib.Tactic
+
 namespace Mud.C02
-theorem placeholder_true : True := trivial
+open Mud Matrix Complex
+open scoped ComplexOrder
+
+variable {N n : ℕ}
+
+/-! ### the generator -/
+
+/-- **T1.** with a symmetric Hamiltonian and antisymmetric derivative couplings at both ends of the step
+    the midpoint generator `W = H̄ - i d̄·v̄` is Hermitian -/
+theorem W_hermitian (H1 H0 : Tab ℝ N N) (d1 d0 : Fin N → Fin N → Fin n → ℝ) (v : Fin n → ℝ)
+    (hH1 : ∀ i j, H1.get i j = H1.get j i) (hH0 : ∀ i j, H0.get i j = H0.get j i)
+    (hd1 : ∀ i j x, d1 j i x = -d1 i j x) (hd0 : ∀ i j x, d0 j i x = -d0 i j x) :
+    (toM (hamProp H1 H0 d1 d0 v)).IsHermitian := by
+  ext i j
+  simp only [conjTranspose_apply, toM_apply, hamProp, contract, Tab.get_ofFn, frac_real]
+  apply Complex.ext
+  · simp [hH1 j i, hH0 j i]
+  · simp only [star_def, conj_im, toC_im, vsum_eq_sum]
+    have : ∑ x, (d1 j i x + d0 j i x) * v x = -∑ x, (d1 i j x + d0 i j x) * v x := by
+      rw [← Finset.sum_neg_distrib]
+      apply Finset.sum_congr rfl
+      intro x _; rw [hd1 i j x, hd0 i j x]; ring
+    rw [this]; ring
+
+/-! ### the exponential step -/
+
+/-- the diagonal of phases `e^{-iλdt}` -/
+noncomputable def phases (diags : Fin N → ℝ) (dt : ℝ) : Matrix (Fin N) (Fin N) ℂ :=
+  Matrix.diagonal (fun i => Complex.exp (-((diags i * dt : ℝ) : ℂ) * Complex.I))
+
+theorem propagatorU_eq (diags : Fin N → ℝ) (coeff : Tab (Cx ℝ) N N) (dt : ℝ) :
+    toM (propagatorU diags coeff dt) = toM coeff * phases diags dt * (toM coeff)ᴴ := by
+  unfold propagatorU phases
+  rw [toM_mmul, toM_mmul, toM_mH, toM_mdiag]
+  congr 2
+  ext i j
+  simp only [diagonal_apply, phaseVec, toC_expI]
+  split
+  · push_cast; ring_nf
+  · rfl
+
+theorem phases_unitary (diags : Fin N → ℝ) (dt : ℝ) :
+    (phases diags dt)ᴴ * phases diags dt = 1 := by
+  unfold phases
+  rw [diagonal_conjTranspose, diagonal_mul_diagonal, ← diagonal_one]
+  congr 1
+  funext i
+  simp only [Pi.star_apply, Complex.star_def]
+  rw [← Complex.exp_conj, ← Complex.exp_add]
+  simp
+
+/-- **T3.** `C` unitary (eigh's contract), eigenvalues real ⇒ the step matrix `U` is unitary -/
+theorem propagatorU_unitary (diags : Fin N → ℝ) (coeff : Tab (Cx ℝ) N N) (dt : ℝ)
+    (hC : (toM coeff)ᴴ * toM coeff = 1) :
+    (toM (propagatorU diags coeff dt))ᴴ * toM (propagatorU diags coeff dt) = 1 := by
+  rw [propagatorU_eq]
+  have hC' : toM coeff * (toM coeff)ᴴ = 1 := mul_eq_one_comm.mp hC
+  simp only [conjTranspose_mul, conjTranspose_conjTranspose, Matrix.mul_assoc]
+  rw [← Matrix.mul_assoc (toM coeff)ᴴ, hC, Matrix.one_mul, ← Matrix.mul_assoc (phases diags dt)ᴴ,
+    phases_unitary, Matrix.one_mul, hC']
+
+theorem expStep_eq (diags : Fin N → ℝ) (coeff : Tab (Cx ℝ) N N) (dt : ℝ) (rho : Tab (Cx ℝ) N N) :
+    toM (expStep diags coeff dt rho)
+      = toM (propagatorU diags coeff dt) * toM rho * (toM (propagatorU diags coeff dt))ᴴ := by
+  unfold expStep
+  simp only [toM_mmul, toM_mH, Matrix.mul_assoc]
+
+section conj
+variable (U ρ : Matrix (Fin N) (Fin N) ℂ)
+
+/-- **T4a.** Hermiticity is preserved by `ρ ↦ U ρ Uᴴ` (any U) -/
+theorem conj_hermitian (hρ : ρ.IsHermitian) : (U * ρ * Uᴴ).IsHermitian := by
+  unfold Matrix.IsHermitian at *
+  simp only [conjTranspose_mul, conjTranspose_conjTranspose, hρ, Matrix.mul_assoc]
+
+/-- **T4b.** the trace is preserved for unitary U -/
+theorem conj_trace (hU : Uᴴ * U = 1) : (U * ρ * Uᴴ).trace = ρ.trace := by
+  rw [Matrix.trace_mul_comm, ← Matrix.mul_assoc, hU, Matrix.one_mul]
+
+/-- **T4c.** positive semi-definiteness is preserved (any U) -/
+theorem conj_posSemidef (hρ : ρ.PosSemidef) : (U * ρ * Uᴴ).PosSemidef := by
+  have := hρ.mul_mul_conjTranspose_same U
+  exact this
+
+/-- **T4d.** a pure state (`ρ² = ρ`) stays pure for unitary U -/
+theorem conj_idempotent (hU : Uᴴ * U = 1) (hρ : ρ * ρ = ρ) : (U * ρ * Uᴴ) * (U * ρ * Uᴴ) = U * ρ * Uᴴ := by
+  calc (U * ρ * Uᴴ) * (U * ρ * Uᴴ) = U * ρ * (Uᴴ * U) * ρ * Uᴴ := by simp only [Matrix.mul_assoc]
+    _ = U * (ρ * ρ) * Uᴴ := by rw [hU]; simp only [Matrix.mul_one, Matrix.mul_assoc]
+    _ = U * ρ * Uᴴ := by rw [hρ]
+end conj
+
+/-- **populations in [0,1]**: a positive semi-definite matrix of trace one has every diagonal entry in `[0,1]` -/
+theorem populations_unit_interval (ρ : Matrix (Fin N) (Fin N) ℂ) (hρ : ρ.PosSemidef) (htr : ρ.trace = 1)
+    (k : Fin N) : 0 ≤ (ρ k k).re ∧ (ρ k k).re ≤ 1 := by
+  have hdiag : ∀ i, 0 ≤ ρ i i := fun i => hρ.diag_nonneg
+  have hre : ∀ i, 0 ≤ (ρ i i).re := fun i => (Complex.nonneg_iff.mp (hdiag i)).1
+  refine ⟨hre k, ?_⟩
+  have htr' : ∑ i, (ρ i i).re = 1 := by
+    have := congrArg Complex.re htr
+    simpa [Matrix.trace] using this
+  rw [← htr']
+  exact Finset.single_le_sum (fun i _ => hre i) (Finset.mem_univ k)
+
+/-- a valid electronic state -/
+structure Valid (ρ : Matrix (Fin N) (Fin N) ℂ) : Prop where
+  herm : ρ.IsHermitian
+  trace_one : ρ.trace = 1
+  psd : ρ.PosSemidef
+
+/-- one exponential step keeps the state valid (and pure if it was) -/
+theorem expStep_valid (diags : Fin N → ℝ) (coeff rho : Tab (Cx ℝ) N N) (dt : ℝ)
+    (hC : (toM coeff)ᴴ * toM coeff = 1) (h : Valid (toM rho)) :
+    Valid (toM (expStep diags coeff dt rho)) ∧
+    (toM rho * toM rho = toM rho →
+      toM (expStep diags coeff dt rho) * toM (expStep diags coeff dt rho) = toM (expStep diags coeff dt rho)) := by
+  have hU := propagatorU_unitary diags coeff dt hC
+  rw [expStep_eq]
+  exact ⟨⟨conj_hermitian _ _ h.herm, by rw [conj_trace _ _ hU]; exact h.trace_one, conj_posSemidef _ _ h.psd⟩,
+    fun hp => conj_idempotent _ _ hU hp⟩
+
+/-- **T5.** history invariant: after ANY list of exponential steps — each with its own eigen-decomposition
+    (any model, any positions), its own `dt` — the density matrix is Hermitian with unit trace, positive
+    semi-definite (populations in [0,1]) and pure if it started pure -/
+theorem exp_history_invariant (steps : List ((Fin N → ℝ) × Tab (Cx ℝ) N N × ℝ))
+    (hC : ∀ s ∈ steps, (toM s.2.1)ᴴ * toM s.2.1 = 1) (rho : Tab (Cx ℝ) N N) (h : Valid (toM rho)) :
+    let final := steps.foldl (fun r s => expStep s.1 s.2.1 s.2.2 r) rho
+    Valid (toM final) ∧ (toM rho * toM rho = toM rho → toM final * toM final = toM final) := by
+  induction steps generalizing rho with
+  | nil => exact ⟨h, fun hp => hp⟩
+  | cons s steps ih =>
+    simp only [List.foldl_cons]
+    have hs := expStep_valid s.1 s.2.1 rho s.2.2 (hC s (List.mem_cons_self)) h
+    have := ih (fun t ht => hC t (List.mem_cons_of_mem _ ht)) (expStep s.1 s.2.1 s.2.2 rho) hs.1
+    exact ⟨this.1, fun hp => this.2 (hs.2 hp)⟩
+
+/-! ### Runge–Kutta: exact structural invariants -/
+
+section rk4
+variable {Y : Type} [AddCommGroup Y] [Module ℝ Y]
+
+/-- `propagation.rk4` in a real vector space -/
+noncomputable def rk4V (ydot : Y → ℝ → Y) (t0 tf : ℝ) (nsteps : ℕ) (y0 : Y) : Y :=
+  rk4 (α := ℝ) (· + ·) (fun c y => c • y) ydot t0 tf nsteps y0
+
+/-- **T6 (general).** RK4 preserves any additive subgroup closed under real scaling that the right-hand side maps
+    into: every stage and every update stays inside it, for any number of sub-steps -/
+theorem rk4_invariant (S : Submodule ℝ Y) (ydot : Y → ℝ → Y) (hy : ∀ y t, y ∈ S → ydot y t ∈ S)
+    (t0 tf : ℝ) (nsteps : ℕ) (y0 : Y) (h0 : y0 ∈ S) : rk4V ydot t0 tf nsteps y0 ∈ S := by
+  unfold rk4V rk4
+  simp only
+  have step : ∀ (h t : ℝ) (y : Y), y ∈ S → rk4One (α := ℝ) (· + ·) (fun c y => c • y) ydot h t y ∈ S := by
+    intro h t y hyS
+    unfold rk4One
+    simp only
+    have k1 := hy y t hyS
+    have k2 := hy _ (t + frac 1 2 * h) (S.add_mem hyS (S.smul_mem (frac 1 2 * h) k1))
+    have k3 := hy _ (t + frac 1 2 * h) (S.add_mem hyS (S.smul_mem (frac 1 2 * h) k2))
+    have k4 := hy _ (t + h) (S.add_mem hyS (S.smul_mem h k3))
+    exact S.add_mem hyS (S.smul_mem _ (S.add_mem (S.add_mem (S.add_mem k1 (S.smul_mem _ k2)) (S.smul_mem _ k3)) k4))
+  generalize List.range nsteps = l
+  induction l generalizing y0 with
+  | nil => exact h0
+  | cons i l ih => exact ih _ (step _ _ _ h0)
+
+/-- RK4 preserves the value of any linear functional that the right-hand side annihilates -/
+theorem rk4_functional (φ : Y →ₗ[ℝ] ℝ) (ydot : Y → ℝ → Y) (hy : ∀ y t, φ (ydot y t) = 0)
+    (t0 tf : ℝ) (nsteps : ℕ) (y0 : Y) : φ (rk4V ydot t0 tf nsteps y0) = φ y0 := by
+  unfold rk4V rk4
+  simp only
+  have step : ∀ (h t : ℝ) (y : Y), φ (rk4One (α := ℝ) (· + ·) (fun c y => c • y) ydot h t y) = φ y := by
+    intro h t y
+    unfold rk4One
+    simp only [map_add, map_smul, hy, smul_zero, add_zero]
+  generalize List.range nsteps = l
+  induction l generalizing y0 with
+  | nil => rfl
+  | cons i l ih => rw [List.foldl_cons, ih, step]
+end rk4
+
+/-- the commutator right-hand side `-i[HI, ρ]` is traceless, whatever `HI` -/
+theorem commutator_traceless (HI ρ : Matrix (Fin N) (Fin N) ℂ) :
+    ((-Complex.I) • (HI * ρ - ρ * HI)).trace = 0 := by
+  rw [Matrix.trace_smul, Matrix.trace_sub, Matrix.trace_mul_comm]; simp
+
+/-- and Hermitian whenever `HI` and `ρ` are -/
+theorem commutator_hermitian (HI ρ : Matrix (Fin N) (Fin N) ℂ) (hH : HI.IsHermitian) (hρ : ρ.IsHermitian) :
+    ((-Complex.I) • (HI * ρ - ρ * HI)).IsHermitian := by
+  unfold Matrix.IsHermitian at *
+  rw [conjTranspose_smul, conjTranspose_sub, conjTranspose_mul, conjTranspose_mul, hH, hρ]
+  simp only [star_neg, Complex.star_def, Complex.conj_I, neg_neg]
+  rw [← neg_sub, smul_neg, neg_smul]
+
+/-- the interaction-picture generator `HI(t)` of the `linear-rk4` branch as a matrix -/
+noncomputable def hiMat (eigs : Fin N → ℝ) (H0 H1 W00 W11 W01 : Tab ℝ N N) (dt t : ℝ) : Matrix (Fin N) (Fin N) ℂ :=
+  toM (Tab.ofFn (fun i j =>
+    let h := H0.get i j * ((1 - t / dt) - 1) + H1.get i j * (t / dt)
+    let w := (1 - t / dt) * (1 - t / dt) * W00.get i j + (t / dt) * (t / dt) * W11.get i j
+      + (1 - t / dt) * (t / dt) * W01.get i j
+    (⟨h, -w⟩ : Cx ℝ) * (Cx.expI (eigs i * t) * Cx.conj (Cx.expI (eigs j * t)))))
+
+/-- the model's right-hand side is the commutator `-i[HI(t), ρ]` -/
+theorem rk4Ydot_eq (eigs : Fin N → ℝ) (H0 H1 W00 W11 W01 : Tab ℝ N N) (dt : ℝ) (rho : Tab (Cx ℝ) N N) (t : ℝ) :
+    toM (rk4Ydot eigs H0 H1 W00 W11 W01 dt rho t)
+      = (-Complex.I) • (hiMat eigs H0 H1 W00 W11 W01 dt t * toM rho - toM rho * hiMat eigs H0 H1 W00 W11 W01 dt t) := by
+  unfold rk4Ydot hiMat
+  simp only
+  rw [toM_ofFn]
+  ext i j
+  simp only [of_apply, toC_mulNegI, Matrix.smul_apply, smul_eq_mul, Matrix.sub_apply]
+  rw [← toM_apply, toM_msub, toM_mmul, toM_mmul]
+  rfl
+
+/-- `HI(t)` is Hermitian when the rotated Hamiltonians are symmetric and the rotated couplings antisymmetric -/
+theorem hiMat_hermitian (eigs : Fin N → ℝ) (H0 H1 W00 W11 W01 : Tab ℝ N N) (dt t : ℝ)
+    (h0 : ∀ i j, H0.get i j = H0.get j i) (h1 : ∀ i j, H1.get i j = H1.get j i)
+    (w00 : ∀ i j, W00.get j i = -W00.get i j) (w11 : ∀ i j, W11.get j i = -W11.get i j)
+    (w01 : ∀ i j, W01.get j i = -W01.get i j) : (hiMat eigs H0 H1 W00 W11 W01 dt t).IsHermitian := by
+  ext i j
+  simp only [hiMat, conjTranspose_apply, toM_apply, Tab.get_ofFn, toC_mul, toC_conj, toC_expI, star_mul',
+    star_star]
+  rw [h0 j i, h1 j i, w00 i j, w11 i j, w01 i j]
+  have e : star (toC (⟨H0.get i j * (1 - t / dt - 1) + H1.get i j * (t / dt),
+      -((1 - t / dt) * (1 - t / dt) * -W00.get i j + t / dt * (t / dt) * -W11.get i j
+        + (1 - t / dt) * (t / dt) * -W01.get i j)⟩ : Cx ℝ))
+      = toC (⟨H0.get i j * (1 - t / dt - 1) + H1.get i j * (t / dt),
+        -((1 - t / dt) * (1 - t / dt) * W00.get i j + t / dt * (t / dt) * W11.get i j
+          + (1 - t / dt) * (t / dt) * W01.get i j)⟩ : Cx ℝ) := by
+    apply Complex.ext <;> simp <;> ring
+  rw [e]; ring
+
+/-- transport of an RK4 run along a map that commutes with the vector-space operations and the right-hand side -/
+theorem rk4_transport {Y : Type} [AddCommGroup Y] [Module ℝ Y] (f : Tab (Cx ℝ) N N → Y)
+    (hadd : ∀ a b, f (madd a b) = f a + f b) (hsmul : ∀ (c : ℝ) a, f (msmul c a) = c • f a)
+    (yd : Tab (Cx ℝ) N N → ℝ → Tab (Cx ℝ) N N) (yd' : Y → ℝ → Y) (hyd : ∀ a t, f (yd a t) = yd' (f a) t)
+    (t0 tf : ℝ) (ns : ℕ) (y0 : Tab (Cx ℝ) N N) :
+    f (rk4 (α := ℝ) madd msmul yd t0 tf ns y0) = rk4V yd' t0 tf ns (f y0) := by
+  unfold rk4V rk4
+  simp only
+  have step : ∀ (h t : ℝ) (y : Tab (Cx ℝ) N N),
+      f (rk4One (α := ℝ) madd msmul yd h t y) = rk4One (α := ℝ) (· + ·) (fun c y => c • y) yd' h t (f y) := by
+    intro h t y
+    unfold rk4One
+    simp only [hadd, hsmul, hyd]
+  generalize List.range ns = l
+  induction l generalizing y0 with
+  | nil => rfl
+  | cons i l ih => rw [List.foldl_cons, List.foldl_cons, ih, step]
+
+/-- **T6a. trace preserved exactly** by the interaction-picture RK4 run of the `linear-rk4` branch, for any number
+    of sub-steps (the rotation into the eigenbasis and the final phase factors are unitary similarity transforms
+    and leave the trace alone: `conj_trace`) -/
+theorem rk4_trace (eigs : Fin N → ℝ) (H0 H1 W00 W11 W01 : Tab ℝ N N) (dt : ℝ) (ns : ℕ) (rho0 : Tab (Cx ℝ) N N) :
+    (toM (rk4 (α := ℝ) madd msmul (fun r t => rk4Ydot eigs H0 H1 W00 W11 W01 dt r t) 0 dt ns rho0)).trace
+      = (toM rho0).trace := by
+  have tr := rk4_transport (Y := Matrix (Fin N) (Fin N) ℂ) toM toM_madd
+    (fun c a => by rw [toM_msmul]; rfl)
+    (fun r t => rk4Ydot eigs H0 H1 W00 W11 W01 dt r t)
+    (fun X t => (-Complex.I) • (hiMat eigs H0 H1 W00 W11 W01 dt t * X - X * hiMat eigs H0 H1 W00 W11 W01 dt t))
+    (fun a t => rk4Ydot_eq eigs H0 H1 W00 W11 W01 dt a t) 0 dt ns rho0
+  rw [tr]
+  apply Complex.ext
+  · exact rk4_functional (Complex.reLm.comp ((Matrix.traceLinearMap (Fin N) ℝ ℂ).restrictScalars ℝ)) _
+      (fun y t => by
+        show ((-Complex.I) • (hiMat eigs H0 H1 W00 W11 W01 dt t * y - y * hiMat eigs H0 H1 W00 W11 W01 dt t)).trace.re = 0
+        rw [commutator_traceless]; rfl) 0 dt ns _
+  · exact rk4_functional (Complex.imLm.comp ((Matrix.traceLinearMap (Fin N) ℝ ℂ).restrictScalars ℝ)) _
+      (fun y t => by
+        show ((-Complex.I) • (hiMat eigs H0 H1 W00 W11 W01 dt t * y - y * hiMat eigs H0 H1 W00 W11 W01 dt t)).trace.im = 0
+        rw [commutator_traceless]; rfl) 0 dt ns _
+
+/-- **T6b. Hermiticity preserved exactly** by the same run when `HI(t)` is Hermitian for every `t` -/
+theorem rk4_hermitian (eigs : Fin N → ℝ) (H0 H1 W00 W11 W01 : Tab ℝ N N) (dt : ℝ) (ns : ℕ) (rho0 : Tab (Cx ℝ) N N)
+    (hHI : ∀ t, (hiMat eigs H0 H1 W00 W11 W01 dt t).IsHermitian) (h0 : (toM rho0).IsHermitian) :
+    (toM (rk4 (α := ℝ) madd msmul (fun r t => rk4Ydot eigs H0 H1 W00 W11 W01 dt r t) 0 dt ns rho0)).IsHermitian := by
+  have tr := rk4_transport (Y := Matrix (Fin N) (Fin N) ℂ) toM toM_madd
+    (fun c a => by rw [toM_msmul]; rfl)
+    (fun r t => rk4Ydot eigs H0 H1 W00 W11 W01 dt r t)
+    (fun X t => (-Complex.I) • (hiMat eigs H0 H1 W00 W11 W01 dt t * X - X * hiMat eigs H0 H1 W00 W11 W01 dt t))
+    (fun a t => rk4Ydot_eq eigs H0 H1 W00 W11 W01 dt a t) 0 dt ns rho0
+  rw [tr]
+  -- the Hermitian matrices form a real subspace
+  let S : Submodule ℝ (Matrix (Fin N) (Fin N) ℂ) :=
+    { carrier := {A | A.IsHermitian}
+      add_mem' := fun ha hb => Matrix.IsHermitian.add ha hb
+      zero_mem' := Matrix.isHermitian_zero
+      smul_mem' := fun c A hA => by
+        show (c • A).IsHermitian
+        unfold Matrix.IsHermitian at *
+        rw [conjTranspose_smul, hA]; simp }
+  exact rk4_invariant S _ (fun y t hy => commutator_hermitian _ _ (hHI t) hy) 0 dt ns _ h0
+
+/-- an A-FSSH collapse (two states) leaves the pure active state: it is idempotent, Hermitian, trace one -/
+theorem collapse_pure (k : Fin N) :
+    let ρ : Matrix (Fin N) (Fin N) ℂ := Matrix.of (fun i j => if i = k ∧ j = k then 1 else 0)
+    ρ * ρ = ρ ∧ ρ.IsHermitian ∧ ρ.trace = 1 := by
+  intro ρ
+  refine ⟨?_, ?_, ?_⟩
+  · ext i j
+    simp only [ρ, Matrix.mul_apply, of_apply]
+    rw [Finset.sum_eq_single k]
+    · by_cases hi : i = k <;> by_cases hj : j = k <;> simp [hi, hj]
+    · intro b _ hb; simp [hb]
+    · simp
+  · ext i j
+    simp only [ρ, conjTranspose_apply, of_apply]
+    by_cases hi : i = k <;> by_cases hj : j = k <;> simp [hi, hj]
+  · simp only [ρ, Matrix.trace, diag_apply, of_apply]
+    rw [Finset.sum_eq_single k]
+    · simp
+    · intro b _ hb; simp [hb]
+    · simp
+
 end Mud.C02
